@@ -353,6 +353,63 @@ func (fr *Frame) nativeCall(f *ssa.Function, args []Val, in ssa.Instruction) (Va
 	case "fmt.Sprintf", "fmt.Sprint":
 		t := f.Signature.Results().At(0).Type()
 		return TV{Fresh("sprintf", SortOf(t)), t}, true
+	case "(encoding/binary.bigEndian).Uint64", "(encoding/binary.littleEndian).Uint64":
+		// T4: positional value of 8 bytes
+		bt, ok := fr.term(args[1])
+		if !ok {
+			return nil, false
+		}
+		fr.safety(in, "bounds", Ge(SliceLen(bt), IntC(8)))
+		var parts []*Term
+		for k := 0; k < 8; k++ {
+			sh := 8 * (7 - k)
+			if strings.Contains(name, "little") {
+				sh = 8 * k
+			}
+			parts = append(parts, Mul(IntB(Pow2(sh)), Typed(SliceAt(bt, IntC(int64(k))), types.Typ[types.Byte])))
+		}
+		ex.Trusted["encoding/binary.ByteOrder.Uint64 (positional value of 8 bytes)"] = true
+		return TV{WithRange(Add(parts...), big.NewInt(0), new(big.Int).Sub(Pow2(64), big.NewInt(1))), types.Typ[types.Uint64]}, true
+	case "(encoding/binary.bigEndian).PutUint64", "(encoding/binary.littleEndian).PutUint64":
+		sv, ok := args[1].(SliceV)
+		vt, ok2 := fr.term(args[2])
+		if !ok || !ok2 {
+			return nil, false
+		}
+		fr.safety(in, "bounds", Ge(Sub(sv.Hi, sv.Lo), IntC(8)))
+		var parts []*Term
+		for k := 0; k < 8; k++ {
+			bk := WithRange(Fresh("byte", SInt), big.NewInt(0), big.NewInt(255))
+			sh := 8 * (7 - k)
+			if strings.Contains(name, "little") {
+				sh = 8 * k
+			}
+			parts = append(parts, Mul(IntB(Pow2(sh)), bk))
+			path := append(append([]PathEl{}, sv.Path...), PathEl{IsIdx: true, Idx: Add(sv.Lo, IntC(int64(k)))})
+			fr.store(PtrV{Cell: sv.Cell, Path: path, Elem: types.Typ[types.Byte]}, bk)
+		}
+		ex.assume(fr.cur, Eq(Add(parts...), vt))
+		ex.Trusted["encoding/binary.ByteOrder.PutUint64 (writes the 8 bytes whose positional value is v)"] = true
+		return TupleV{}, true
+	case "bytes.Compare":
+		at, ok1 := fr.term(args[0])
+		bt, ok2 := fr.term(args[1])
+		if !ok1 || !ok2 {
+			return nil, false
+		}
+		la, lb := SliceLen(at), SliceLen(bt)
+		if la.Op == "int" && lb.Op == "int" && la.Int.Cmp(lb.Int) == 0 && la.Int.Int64() <= 64 {
+			n := int(la.Int.Int64())
+			var pa, pb []*Term
+			for k := 0; k < n; k++ {
+				w := IntB(Pow2(8 * (n - 1 - k)))
+				pa = append(pa, Mul(w, Typed(SliceAt(at, IntC(int64(k))), types.Typ[types.Byte])))
+				pb = append(pb, Mul(w, Typed(SliceAt(bt, IntC(int64(k))), types.Typ[types.Byte])))
+			}
+			va, vb := Add(pa...), Add(pb...)
+			ex.Trusted["bytes.Compare (lexicographic order; on equal lengths the order of the big-endian values)"] = true
+			return TV{Ite(Lt(va, vb), IntC(-1), Ite(Eq(va, vb), IntC(0), IntC(1))), types.Typ[types.Int]}, true
+		}
 	}
 	return nil, false
 }
